@@ -20,7 +20,7 @@ func init() {
 			"non-empty message is returned; (R4) the object-count check compares with the count captured before the handler ran (or nobody " +
 			"overwrites request.Objects); (R5) steps run in ascending chain order, a Fail status returns without running another step, " +
 			"Success requires the done flag; (R6) a path stored in the cache is cache[prefix] followed by a rule taken from " +
-			"NextRules(prefix.ToVersion). NOT decided: completeness of the search (found iff exists) and termination for all rule graphs.",
+			"NextRules(prefix.ToVersion). (R6) every round of the chain search recomputes its prefixes from the whole paths cache; (R7) no message is used as a format string. NOT decided: completeness of the search (found iff exists) and termination for all rule graphs.",
 		Run: runC15,
 	})
 }
@@ -535,7 +535,16 @@ func runC15(c *eng.Ctx) {
 			// requests left in the cache, and the search gives up although a chain exists)
 			fromCache := false
 			if outer != nil {
-				if oc, isC := ast.Unparen(outer.X).(*ast.CallExpr); isC {
+				src := outer.X
+				if lv, isV := eng.SelObj(info, src).(*types.Var); isV && !lv.IsField() {
+					// a local assigned once, inside the round loop
+					if es := eng.AssignedExprs(info, f.Decl.Body, lv); len(es) == 1 {
+						if rl := eng.LoopOf(f.Decl.Body, es[0].Pos()); rl != nil && rl == eng.LoopOf(f.Decl.Body, outer.Pos()-1) {
+							src = es[0]
+						}
+					}
+				}
+				if oc, isC := ast.Unparen(src).(*ast.CallExpr); isC {
 					if fn, isF := eng.CalleeOf(info, oc).(*types.Func); isF {
 						if cf := p.FuncOf(fn); cf != nil && cf.Decl.Body != nil {
 							ast.Inspect(cf.Decl.Body, func(m ast.Node) bool {
